@@ -16,6 +16,9 @@ from fim.user.topology import ExperimentTopology
 from fim.slivers.network_service import ServiceType
 from fim.slivers.interface_info import InterfaceType
 
+from fim.slivers.network_link import LinkType
+from fim.slivers.capacities_labels import Labels
+
 LEVEL = 'other'
 
 
@@ -30,6 +33,20 @@ def build(h, variant, site1, site2):
     if variant in ('gpu', 'gpu+bridge'):
         h.call(h.getattr(n1, 'add_component'), name='gpu1', model_type=CMT('GPU_Tesla_T4'))
     ns = None
+    if variant == 'sub-interfaces':
+        # the dedicated port of the removed card carries sub-interfaces; one of them is connected to a service
+        port = topo.iface(h, c1, 'nic1-p1')
+        h.call(h.getattr(port, 'add_child_interface'), name='sub1', labels=h.call(Labels, vlan='100'))
+        h.call(h.getattr(port, 'add_child_interface'), name='sub2', labels=h.call(Labels, vlan='200'))
+        sub = topo.iface(h, port, 'sub1')
+        i2 = topo.iface(h, c2, 'nic2-p1')
+        ns = h.call(h.getattr(t, 'add_network_service'), name='br1', nstype=ServiceType.L2STS, interfaces=PList([sub, i2])
+                    if h.mode == 'sym' else [sub, i2])
+    if variant == 'direct link':
+        # the two cards are wired port to port by a link (no service in between)
+        i1 = topo.iface(h, c1, 'nic1-p1')
+        i2 = topo.iface(h, c2, 'nic2-p1')
+        h.call(h.getattr(t, 'add_link'), name='wire', ltype=LinkType.Patch, interfaces=PList([i1, i2]) if h.mode == 'sym' else [i1, i2])
     if variant in ('bridge', 'gpu+bridge'):
         i1 = topo.iface(h, c1, 'nic1-p1')
         i2 = topo.iface(h, c2, 'nic2-p1')
@@ -42,7 +59,7 @@ def iface_names(h, element):
     return sorted(str(h.getattr(i, 'name')) for i in topo.pylist(h.getattr(element, 'interface_list')))
 
 
-def make(opname, run, expected, variants=('plain', 'bridge', 'gpu+bridge'), handle_check=None):
+def make(opname, run, expected, variants=('plain', 'bridge', 'gpu+bridge', 'sub-interfaces', 'direct link'), handle_check=None):
     class Op(Contract):
         target = 'fim.user.topology:Topology.remove_node'
         props = ('C08',)
